@@ -31,11 +31,13 @@ MainClauses(pre, ctx, s) ==
     \cup (IF "rep" \notin DOMAIN s \/ "v" \notin DOMAIN s \/ ~s.rep.ok \/ s.rep.v.trials = s.v.trials THEN {} ELSE {"log_replay_differs"})
     \cup (IF "rt" \notin DOMAIN s \/ (s.rt.ok /\ ObsRT(s.rt.snap) = ObsRT(s.post)) THEN {} ELSE {"card_round_trip_differs"})
 
-DriftClauses(pre, s) ==
+DriftClauses(t, pre, s) ==
     LET r == Do(pre, s.c) IN
     (IF r[1] = OutM(s.out) THEN {} ELSE {"model_outcome"})
     \cup (IF r[2] = s.post THEN {} ELSE {"model_post_state"})
-    \cup (IF FromActions(EmptyHJ, s.post.log) = s.post THEN {} ELSE {"model_log_replay"})
+    \* (the whole-log replay is quadratic in the trace length: traces flagged `lite` - full-size fields recorded from the
+    \*  repository's test-suite - check it at their last step only)
+    \cup (IF ("lite" \in DOMAIN Trace[t] /\ Trace[t].lite /\ s # Steps(t)[Len(Steps(t))]) \/ FromActions(EmptyHJ, s.post.log) = s.post THEN {} ELSE {"model_log_replay"})
     \* the derived views of the real object are those of the model (trials, remaining, eliminated, is_finished, is_running)
     \cup (IF "v" \notin DOMAIN s \/ s.v = Views(s.post) THEN {} ELSE {"model_views"})
     \cup (IF TrialsSpellCards(s.post) THEN {} ELSE {"model_trials_vs_cards"})
@@ -45,7 +47,7 @@ CheckStep(t, i) ==
         pre == Pre(t, i)
         ctx == RuleCtx(pre)
         mc == MainClauses(pre, ctx, s)
-        dc == DriftClauses(pre, s)
+        dc == DriftClauses(t, pre, s)
         postctx == RuleCtx(s.post)
         kf == (IF KF_BeatenReinstated(s.post) \/ (i = 1 /\ KF_BeatenReinstated(pre)) THEN {"KF-HJ1"} ELSE {})
               \cup (IF KF_JumpOffPass(s.post) THEN {"KF-HJ2"} ELSE {})
